@@ -1,37 +1,50 @@
 //! C20 harness: runs the built `minidump-stackwalk` binary (argv[1]) and the library in-process on
-//! the same input and options, and prints one comparison record per case.
+//! the same input and options, and prints one comparison record per case.  argv[2] = the checkout whose
+//! testdata is used (default /repo).
 //!
-//! case (14 tokens):
-//!   <input> <sym> <modes> <brief> <pretty> <feat> <rfa> <out> <cy> <log> <verbose> <stdout> <evil> <noflags>
-//!   input   F:<name in /repo/testdata> | M:<name>:<seed>:<n bytes mutated> | MS:<k>:<seed>:<n> (mutated synth) | T:<name>:<len> (truncated)
+//! case (14..16 tokens):
+//!   <input> <sym> <modes> <brief> <pretty> <feat> <rfa> <out> <cy> <log> <verbose> <stdout> <evil> <noflags> [<lim> [<ldi>]]
+//!   input   F:<name in testdata> | M:<name>:<seed>:<n bytes mutated> | MS:<k>:<seed>:<n> (mutated synth) | T:<name>:<len> (truncated)
 //!           | S:<k> (minidump-synth variant) | X:missing | X:empty | X:dir | X:text
 //!   sym     n none | p positional testdata/symbols | s --symbols-path testdata/symbols
 //!           | a positional "symargs" (test_app.sym with argument lists) | b --symbols-path symargs + positional symbols
+//!           | U<2|4|g>[c|t] --symbols-url on the harness's loopback server answering 200 / 404 / 200 with garbage,
+//!             with fresh --symbols-cache / --symbols-tmp directories (c: cache path unusable, t: tmp path unusable)
 //!   modes   '-' or letters of h(--human) j(--json) c(--cyborg) D(--dump) m(--help-markdown)
 //!   feat    0 stable-basic | 1 stable-all | 2 unstable-all | 9 (no --features argument)
-//!   out/cy/log  '-' absent | g writable file | b path in a missing directory | u /dev/full
+//!   out/cy/log  '-' absent | g writable file | b path in a missing directory | u /dev/full | d an existing directory
+//!           | r an existing read-only file (the tool then runs as uid 65534 when the harness is root)
+//!           | f<N> (out only) a FIFO whose reader goes away after N >= 1 bytes
 //!   verbose e (no flag) | off|error|warn|info|debug|trace
-//!   stdout  o pipe | u /dev/full | p pipe whose reader is gone
+//!   stdout  o pipe | u /dev/full | p pipe whose reader is gone | p<N> pipe whose reader goes away after N bytes
 //!   noflags bit 0 --no-color, bit 1 --no-interactive
+//!   lim     0 | N: RLIMIT_FSIZE = N bytes for the tool (SIGXFSZ ignored): every regular file fails with EFBIG after N bytes
+//!   ldi     1: --use-local-debuginfo
 //! answer:
-//!   lib=<R|P|O|X|?> exit=<n|sig:n|timeout> stdout=<sink> out=<sink> cy=<sink> log=<-|len> stderr=<len> exp=<list>
+//!   lib=<R|P|O|X|?> cpu=<x86|amd64|arm64|other|-> exit=<n|sig:n|timeout> stdout=<sink> out=<sink> cy=<sink> log=<-|len> stderr=<len> exp=<list>
 //!   sink = '-' (file absent) | n/a | <len>:<hash>:<names of the in-process renderings it equals, '+'-joined | none>
+//!          a name followed by '<' means: a proper non-empty prefix of that rendering
 //!   renderings: H0 H1 HB0 HB1 J0 J1 JP0 JP1 (suffix = recover_function_args) D DB
 use minidump::*;
 use minidump_processor::ProcessorOptions;
-use minidump_unwind::{simple_symbol_supplier, MultiSymbolProvider, Symbolizer};
+use minidump_unwind::{http_symbol_supplier, simple_symbol_supplier, MultiSymbolProvider, Symbolizer};
 use minidump_synth as synth;
 use std::collections::HashMap;
 use std::io::{Read, Write};
 use std::ops::Deref;
 use std::os::unix::io::FromRawFd;
+use std::os::unix::process::CommandExt;
+use std::sync::atomic::{AtomicBool, Ordering};
+use std::sync::Arc;
 use std::path::{Path, PathBuf};
 use std::process::{Command, Stdio};
 use std::time::{Duration, Instant};
 use test_assembler::{Endian, Section};
 use vharness::*;
 
-const TESTDATA: &str = "/repo/testdata";
+fn testdata() -> PathBuf {
+    PathBuf::from(std::env::args().nth(2).unwrap_or_else(|| "/repo".to_string())).join("testdata")
+}
 
 fn fnv(b: &[u8]) -> String {
     let mut h: u64 = 0xcbf29ce484222325;
@@ -228,7 +241,7 @@ fn synth_dump(k: u64) -> Vec<u8> {
 
 fn input_bytes(spec: &str) -> Option<Vec<u8>> {
     let parts: Vec<&str> = spec.split(':').collect();
-    let read = |n: &str| std::fs::read(Path::new(TESTDATA).join(n)).expect("testdata file");
+    let read = |n: &str| std::fs::read(testdata().join(n)).expect("testdata file");
     match parts[0] {
         "F" => Some(read(parts[1])),
         "M" | "MS" => {
@@ -269,10 +282,21 @@ fn input_bytes(spec: &str) -> Option<Vec<u8>> {
 #[derive(Clone, Default)]
 struct LibOut {
     class: String,                       // R read error, P process error, O ok, X panic
+    cpu: String,                         // x86 | amd64 | arm64 | other | - (no system info)
     renderings: Vec<(String, Vec<u8>)>,  // name -> bytes
 }
 
-fn lib_run(path: &Path, sym_dirs: &[PathBuf], feat: u64, rfa_flag: bool, evil: bool) -> LibOut {
+/// where the in-process run takes symbols from (mirrors main.rs: URLs => http supplier, else paths => simple supplier)
+#[derive(Clone)]
+struct SymSrc {
+    dirs: Vec<PathBuf>,
+    urls: Vec<String>,
+    cache: PathBuf,
+    tmp: PathBuf,
+}
+
+fn lib_run(path: &Path, sym: &SymSrc, feat: u64, rfa_flag: bool, evil: bool) -> LibOut {
+    let sym_dirs = &sym.dirs;
     let mut out = LibOut::default();
     let dump = match Minidump::read_path(path) {
         Ok(d) => d,
@@ -281,6 +305,16 @@ fn lib_run(path: &Path, sym_dirs: &[PathBuf], feat: u64, rfa_flag: bool, evil: b
             return out;
         }
     };
+    out.cpu = match dump.get_stream::<MinidumpSystemInfo>() {
+        Ok(si) => match si.cpu {
+            minidump::system_info::Cpu::X86 => "x86",
+            minidump::system_info::Cpu::X86_64 => "amd64",
+            minidump::system_info::Cpu::Arm64 => "arm64",
+            _ => "other",
+        },
+        Err(_) => "-",
+    }
+    .to_string();
     for (name, brief) in [("D", false), ("DB", true)] {
         let mut v = Vec::new();
         print_minidump_dump(&dump, &mut v, brief).expect("dump printer on a Vec");
@@ -288,7 +322,7 @@ fn lib_run(path: &Path, sym_dirs: &[PathBuf], feat: u64, rfa_flag: bool, evil: b
     }
     let rt = tokio::runtime::Builder::new_current_thread().enable_all().build().unwrap();
     out.class = "O".into();
-    let evil_path = PathBuf::from(TESTDATA).join("evil.json");
+    let evil_path = testdata().join("evil.json");
     for rec in [false, true] {
         // the documented option table: the preset named by --features, overloaded by the explicit flags
         let mut options = match feat {
@@ -302,7 +336,17 @@ fn lib_run(path: &Path, sym_dirs: &[PathBuf], feat: u64, rfa_flag: bool, evil: b
             options.evil_json = Some(&evil_path);
         }
         let mut provider = MultiSymbolProvider::new();
-        if !sym_dirs.is_empty() {
+        if !sym.urls.is_empty() {
+            // a private cache per processing run, like the fresh one the tool gets for every case
+            let sub = if rec { "1" } else { "0" };
+            provider.add(Box::new(Symbolizer::new(http_symbol_supplier(
+                sym_dirs.to_vec(),
+                sym.urls.clone(),
+                sym.cache.join(sub),
+                sym.tmp.clone(),
+                Duration::from_secs(1000),
+            ))));
+        } else if !sym_dirs.is_empty() {
             provider.add(Box::new(Symbolizer::new(simple_symbol_supplier(sym_dirs.to_vec()))));
         }
         match rt.block_on(minidump_processor::process_minidump_with_options(&dump, &provider, options)) {
@@ -335,13 +379,22 @@ struct ToolOut {
     exit: String,
     stdout: Option<Vec<u8>>,
     stderr: Vec<u8>,
+    fifo_bytes: Option<Vec<u8>>,
 }
 
-fn run_tool(tool: &str, args: &[String], cwd: &Path, stdout_cls: &str) -> ToolOut {
+struct Sinks<'a> {
+    stdout_cls: &'a str,
+    fifo: Option<(PathBuf, usize)>, // --output-file is a FIFO whose reader leaves after N bytes
+    lim: u64,
+    as_nobody: bool,
+}
+
+fn run_tool(tool: &str, args: &[String], cwd: &Path, sk: &Sinks) -> ToolOut {
     let mut cmd = Command::new(tool);
     cmd.args(args).current_dir(cwd).stdin(Stdio::null()).stderr(Stdio::piped());
     cmd.env("TMPDIR", cwd).env_remove("RUST_BACKTRACE").env_remove("RUST_LOG").env_remove("NO_COLOR");
-    match stdout_cls {
+    let mut pipe_after: Option<usize> = None;
+    match sk.stdout_cls {
         "u" => {
             cmd.stdout(std::fs::OpenOptions::new().write(true).open("/dev/full").expect("/dev/full"));
         }
@@ -351,17 +404,90 @@ fn run_tool(tool: &str, args: &[String], cwd: &Path, stdout_cls: &str) -> ToolOu
             libc::close(fds[0]);
             cmd.stdout(Stdio::from_raw_fd(fds[1]));
         },
+        x if x.starts_with('p') => {
+            pipe_after = Some(x[1..].parse().expect("p<N>"));
+            cmd.stdout(Stdio::piped());
+        }
         _ => {
             cmd.stdout(Stdio::piped());
         }
     }
+    let lim = sk.lim;
+    let as_nobody = sk.as_nobody;
+    if lim > 0 || as_nobody {
+        unsafe {
+            cmd.pre_exec(move || {
+                if lim > 0 {
+                    let rl = libc::rlimit { rlim_cur: lim, rlim_max: lim };
+                    libc::setrlimit(libc::RLIMIT_FSIZE, &rl);
+                    libc::signal(libc::SIGXFSZ, libc::SIG_IGN);
+                }
+                Ok(())
+            });
+        }
+        if as_nobody {
+            cmd.uid(65534).gid(65534);
+        }
+    }
+    // FIFO reader: opened before the tool starts (non-blocking), leaves after N bytes or when the tool is gone
+    let done = Arc::new(AtomicBool::new(false));
+    let fifo_thread = sk.fifo.clone().map(|(path, n)| {
+        let c = std::ffi::CString::new(path.to_str().unwrap()).unwrap();
+        unsafe {
+            libc::mkfifo(c.as_ptr(), 0o666);
+            libc::chmod(c.as_ptr(), 0o666);
+        }
+        let fd = unsafe { libc::open(c.as_ptr(), libc::O_RDONLY | libc::O_NONBLOCK | libc::O_CLOEXEC) };
+        assert!(fd >= 0, "open fifo");
+        let done = done.clone();
+        std::thread::spawn(move || {
+            let mut got: Vec<u8> = Vec::new();
+            let mut buf = [0u8; 4096];
+            let mut idle_after_done = 0;
+            loop {
+                let want = (n - got.len()).min(buf.len());
+                let r = unsafe { libc::read(fd, buf.as_mut_ptr() as *mut libc::c_void, want) };
+                if r > 0 {
+                    got.extend_from_slice(&buf[..r as usize]);
+                    if got.len() >= n {
+                        break;
+                    }
+                } else {
+                    if done.load(Ordering::SeqCst) {
+                        idle_after_done += 1;
+                        if idle_after_done > 2 {
+                            break;
+                        }
+                    }
+                    std::thread::sleep(Duration::from_millis(1));
+                }
+            }
+            unsafe { libc::close(fd) };
+            got
+        })
+    });
     let mut child = cmd.spawn().expect("spawn minidump-stackwalk");
     let so = child.stdout.take();
     let se = child.stderr.take().unwrap();
     let t_out = std::thread::spawn(move || {
         so.map(|mut s| {
             let mut v = Vec::new();
-            let _ = s.read_to_end(&mut v);
+            match pipe_after {
+                None => {
+                    let _ = s.read_to_end(&mut v);
+                }
+                Some(n) => {
+                    let mut buf = [0u8; 4096];
+                    while v.len() < n {
+                        let want = (n - v.len()).min(buf.len());
+                        match s.read(&mut buf[..want]) {
+                            Ok(0) | Err(_) => break,
+                            Ok(k) => v.extend_from_slice(&buf[..k]),
+                        }
+                    }
+                    drop(s); // the reader goes away
+                }
+            }
             v
         })
     });
@@ -376,7 +502,7 @@ fn run_tool(tool: &str, args: &[String], cwd: &Path, stdout_cls: &str) -> ToolOu
         match child.try_wait().expect("wait") {
             Some(s) => break Some(s),
             None => {
-                if start.elapsed() > Duration::from_secs(60) {
+                if start.elapsed() > Duration::from_secs(20) {
                     let _ = child.kill();
                     let _ = child.wait();
                     break None;
@@ -385,8 +511,10 @@ fn run_tool(tool: &str, args: &[String], cwd: &Path, stdout_cls: &str) -> ToolOu
             }
         }
     };
+    done.store(true, Ordering::SeqCst);
     let stdout = t_out.join().unwrap();
     let stderr = t_err.join().unwrap();
+    let fifo_bytes = fifo_thread.map(|t| t.join().unwrap());
     let exit = match status {
         None => "timeout".to_string(),
         Some(s) => {
@@ -398,13 +526,81 @@ fn run_tool(tool: &str, args: &[String], cwd: &Path, stdout_cls: &str) -> ToolOu
             }
         }
     };
-    ToolOut { exit, stdout, stderr }
+    ToolOut { exit, stdout, stderr, fifo_bytes }
+}
+
+// ---------------------------------------------------------------------------------- loopback symbol server
+/// GET /ok/<path> -> testdata/symbols/<path> (404 if absent); /nf/.. -> 404; /gb/.. -> 200 with a body that is no symbol file
+fn start_symbol_server() -> u16 {
+    let mut tries = 0;
+    let listener = loop {
+        match std::net::TcpListener::bind("127.0.0.1:0") {
+            Ok(l) => break l,
+            Err(e) => {
+                tries += 1;
+                if tries > 50 {
+                    panic!("cannot bind a loopback port: {}", e);
+                }
+                std::thread::sleep(Duration::from_millis(100));
+            }
+        }
+    };
+    let port = listener.local_addr().unwrap().port();
+    let root = testdata().join("symbols");
+    std::thread::spawn(move || {
+        for conn in listener.incoming() {
+            let mut conn = match conn {
+                Ok(c) => c,
+                Err(_) => continue,
+            };
+            let root = root.clone();
+            std::thread::spawn(move || {
+                let _ = conn.set_read_timeout(Some(Duration::from_secs(5)));
+                let mut req = Vec::new();
+                let mut buf = [0u8; 2048];
+                while !req.windows(4).any(|w| w == b"\r\n\r\n") && req.len() < 65536 {
+                    match conn.read(&mut buf) {
+                        Ok(0) | Err(_) => break,
+                        Ok(k) => req.extend_from_slice(&buf[..k]),
+                    }
+                }
+                let line = String::from_utf8_lossy(&req).lines().next().unwrap_or("").to_string();
+                let path = line.split(' ').nth(1).unwrap_or("/").split('?').next().unwrap_or("/").to_string();
+                let (code, body): (u32, Vec<u8>) = if let Some(rest) = path.strip_prefix("/ok/") {
+                    let rest = rest.replace("%2F", "/");
+                    if rest.contains("..") {
+                        (404, b"no".to_vec())
+                    } else {
+                        match std::fs::read(root.join(rest)) {
+                            Ok(b) => (200, b),
+                            Err(_) => (404, b"not found".to_vec()),
+                        }
+                    }
+                } else if path.starts_with("/gb/") {
+                    (200, b"<html>this is not a symbol file</html>\n\x00\xff\xfe garbage\n".to_vec())
+                } else {
+                    (404, b"not found".to_vec())
+                };
+                let head = format!(
+                    "HTTP/1.1 {} {}\r\nContent-Length: {}\r\nContent-Type: application/octet-stream\r\nConnection: close\r\n\r\n",
+                    code,
+                    if code == 200 { "OK" } else { "Not Found" },
+                    body.len()
+                );
+                let _ = conn.write_all(head.as_bytes());
+                let _ = conn.write_all(&body);
+                let _ = conn.flush();
+            });
+        }
+    });
+    port
 }
 
 struct State {
     tool: String,
     tmp: tempfile::TempDir,
     symargs: PathBuf,
+    port: u16,
     cache: HashMap<String, LibOut>,
     inputs: HashMap<String, PathBuf>,
     n: u64,
@@ -416,7 +612,7 @@ fn make_symargs(dir: &Path) -> PathBuf {
     let root = dir.join("symargs");
     let rel = "test_app.pdb/5A9832E5287241C1838ED98914E9B7FF1";
     std::fs::create_dir_all(root.join(rel)).unwrap();
-    let src = std::fs::read_to_string(Path::new(TESTDATA).join("symbols").join(rel).join("test_app.sym")).unwrap();
+    let src = std::fs::read_to_string(testdata().join("symbols").join(rel).join("test_app.sym")).unwrap();
     let mut out = String::with_capacity(src.len() + 64);
     for line in src.lines() {
         if line.starts_with("FUNC ") && line.ends_with(" main") {
@@ -435,9 +631,17 @@ fn make_symargs(dir: &Path) -> PathBuf {
 }
 
 fn sink_desc(bytes: &[u8], lib: &LibOut) -> String {
-    let mut names: Vec<&str> = lib.renderings.iter().filter(|(_, b)| b.as_slice() == bytes).map(|(n, _)| n.as_str()).collect();
+    let mut names: Vec<String> = lib.renderings.iter().filter(|(_, b)| b.as_slice() == bytes).map(|(n, _)| n.clone()).collect();
+    if names.is_empty() && !bytes.is_empty() {
+        names = lib
+            .renderings
+            .iter()
+            .filter(|(_, b)| b.len() > bytes.len() && &b[..bytes.len()] == bytes)
+            .map(|(n, _)| format!("{}<", n))
+            .collect();
+    }
     if names.is_empty() {
-        names.push("none");
+        names.push("none".into());
     }
     format!("{}:{}:{}", bytes.len(), fnv(bytes), names.join("+"))
 }
@@ -445,7 +649,7 @@ fn sink_desc(bytes: &[u8], lib: &LibOut) -> String {
 fn file_desc(cls: &str, p: &Path, lib: &LibOut) -> String {
     match cls {
         "-" => "-".into(),
-        "u" => "n/a".into(),
+        "u" | "d" | "r" => "n/a".into(),
         _ => match std::fs::read(p) {
             Ok(b) => sink_desc(&b, lib),
             Err(_) => "-".into(),
@@ -469,6 +673,8 @@ fn run(st: &mut State, line: &str) -> String {
     let stdout_cls = t.str();
     let evil = t.u64() == 1;
     let noflags = t.u64();
+    let lim: u64 = t.opt().map(|x| x.parse().expect("lim")).unwrap_or(0);
+    let ldi = t.opt().map(|x| x == "1").unwrap_or(false);
     st.n += 1;
     let tmp = st.tmp.path().to_path_buf();
 
@@ -493,17 +699,36 @@ fn run(st: &mut State, line: &str) -> String {
     // paths
     let casedir = tmp.join(format!("c{}", st.n));
     std::fs::create_dir_all(&casedir).unwrap();
+    let root = unsafe { libc::geteuid() } == 0;
+    let as_nobody = root && [out_cls, cy_cls, log_cls].contains(&"r");
+    if as_nobody {
+        use std::os::unix::fs::PermissionsExt;
+        std::fs::set_permissions(&casedir, std::fs::Permissions::from_mode(0o777)).unwrap();
+    }
     let mk = |cls: &str, name: &str| -> PathBuf {
         match cls {
             "b" => casedir.join("missing-dir").join(name),
             "u" => PathBuf::from("/dev/full"),
+            "d" => {
+                let p = casedir.join(format!("{}.d", name));
+                std::fs::create_dir_all(&p).unwrap();
+                p
+            }
+            "r" => {
+                use std::os::unix::fs::PermissionsExt;
+                let p = casedir.join(format!("{}.ro", name));
+                std::fs::write(&p, b"old").unwrap();
+                std::fs::set_permissions(&p, std::fs::Permissions::from_mode(0o444)).unwrap();
+                p
+            }
             _ => casedir.join(name),
         }
     };
+    let fifo = if out_cls.starts_with('f') { Some((casedir.join("out.txt"), out_cls[1..].parse::<usize>().expect("f<N>").max(1))) } else { None };
     let out_path = mk(out_cls, "out.txt");
     let cy_path = mk(cy_cls, "cyborg.json");
     let log_path = mk(log_cls, "log.txt");
-    let symbols = PathBuf::from(TESTDATA).join("symbols");
+    let symbols = testdata().join("symbols");
 
     let mut args: Vec<String> = vec![];
     let s = |p: &Path| p.to_str().unwrap().to_string();
@@ -552,7 +777,7 @@ fn run(st: &mut State, line: &str) -> String {
     }
     if evil {
         args.push("--evil-json".into());
-        args.push(format!("{}/evil.json", TESTDATA));
+        args.push(s(&testdata().join("evil.json")));
     }
     if noflags & 1 != 0 {
         args.push("--no-color".into());
@@ -561,6 +786,41 @@ fn run(st: &mut State, line: &str) -> String {
         args.push("--no-interactive".into());
     }
     let mut sym_dirs: Vec<PathBuf> = vec![];
+    let mut src = SymSrc { dirs: vec![], urls: vec![], cache: casedir.join("lib-cache"), tmp: casedir.join("lib-tmp") };
+    if ldi {
+        args.push("--use-local-debuginfo".into());
+    }
+    if let Some(rest) = sym.strip_prefix('U') {
+        let mode = match &rest[..1] {
+            "2" => "ok",
+            "4" => "nf",
+            _ => "gb",
+        };
+        if st.port == 0 {
+            st.port = start_symbol_server(); // started on first use
+        }
+        let url = format!("http://127.0.0.1:{}/{}/", st.port, mode);
+        args.push("--symbols-url".into());
+        args.push(url.clone());
+        src.urls.push(url);
+        // unusable = a path below a regular file
+        std::fs::write(casedir.join("plain-file"), b"x").unwrap();
+        let bad = casedir.join("plain-file").join("sub");
+        let (tc, tt, lc, lt) = match &rest[1..] {
+            "c" => (bad.clone(), casedir.join("tool-tmp"), bad.clone(), casedir.join("lib-tmp")),
+            "t" => (casedir.join("tool-cache"), bad.clone(), casedir.join("lib-cache"), bad.clone()),
+            _ => (casedir.join("tool-cache"), casedir.join("tool-tmp"), casedir.join("lib-cache"), casedir.join("lib-tmp")),
+        };
+        for d in [&tc, &tt, &lc, &lt] {
+            let _ = std::fs::create_dir_all(d);
+        }
+        args.push("--symbols-cache".into());
+        args.push(s(&tc));
+        args.push("--symbols-tmp".into());
+        args.push(s(&tt));
+        src.cache = lc;
+        src.tmp = lt;
+    }
     match sym {
         "s" => {
             args.push("--symbols-path".into());
@@ -587,21 +847,22 @@ fn run(st: &mut State, line: &str) -> String {
     }
 
     // (a) the tool first: if it dies the same input is not fed to the library in this process
-    let tool = run_tool(&st.tool, &args, &casedir, stdout_cls);
+    src.dirs = sym_dirs.clone();
+    let tool = run_tool(&st.tool, &args, &casedir, &Sinks { stdout_cls, fifo: fifo.clone(), lim, as_nobody });
     let died = tool.exit.starts_with("sig") || tool.exit == "timeout";
 
     // (b) the library, in-process
     let key = format!("{} {} {} {}", input, sym, feat, evil);
+    let cacheable = !sym.starts_with('U');
     let lib = if died {
-        LibOut { class: "?".into(), renderings: vec![] }
-    } else if let Some(l) = st.cache.get(&key) {
+        LibOut { class: "?".into(), cpu: "-".into(), renderings: vec![] }
+    } else if let Some(l) = st.cache.get(&key).filter(|_| cacheable) {
         l.clone()
     } else {
         let p = in_path.clone();
-        let dirs = sym_dirs.clone();
-        let l = match std::panic::catch_unwind(std::panic::AssertUnwindSafe(|| lib_run(&p, &dirs, feat, rfa, evil))) {
+        let l = match std::panic::catch_unwind(std::panic::AssertUnwindSafe(|| lib_run(&p, &src, feat, rfa, evil))) {
             Ok(l) => l,
-            Err(_) => LibOut { class: "X".into(), renderings: vec![] },
+            Err(_) => LibOut { class: "X".into(), cpu: "-".into(), renderings: vec![] },
         };
         if st.cache.len() > 64 {
             st.cache.clear();
@@ -611,21 +872,25 @@ fn run(st: &mut State, line: &str) -> String {
     };
 
     let stdout_desc = match &tool.stdout {
-        Some(b) if stdout_cls == "o" => sink_desc(b, &lib),
+        Some(b) if stdout_cls == "o" || (stdout_cls.len() > 1 && stdout_cls.starts_with('p')) => sink_desc(b, &lib),
         _ => "n/a".into(),
     };
-    let out_desc = file_desc(out_cls, &out_path, &lib);
+    let out_desc = match &tool.fifo_bytes {
+        Some(b) => sink_desc(b, &lib),
+        None => file_desc(out_cls, &out_path, &lib),
+    };
     let cy_desc = if modes.contains('c') { file_desc(cy_cls, &cy_path, &lib) } else { "-".into() };
     let log_desc = match log_cls {
         "-" => "-".to_string(),
-        "u" => "n/a".into(),
+        "u" | "d" | "r" => "n/a".into(),
         _ => std::fs::metadata(&log_path).map(|m| m.len().to_string()).unwrap_or("-".into()),
     };
     let exp: Vec<String> = lib.renderings.iter().map(|(n, b)| format!("{}:{}:{}", n, b.len(), fnv(b))).collect();
     let _ = std::fs::remove_dir_all(&casedir);
     format!(
-        "lib={} exit={} stdout={} out={} cy={} log={} stderr={} exp={}",
+        "lib={} cpu={} exit={} stdout={} out={} cy={} log={} stderr={} exp={}",
         lib.class,
+        if lib.cpu.is_empty() { "-" } else { lib.cpu.as_str() },
         tool.exit,
         stdout_desc,
         out_desc,
@@ -641,7 +906,12 @@ fn main() {
     let base = PathBuf::from("/verif/.cache/c20-tmp");
     std::fs::create_dir_all(&base).unwrap();
     let tmp = tempfile::Builder::new().prefix("h").tempdir_in(&base).unwrap();
+    {
+        use std::os::unix::fs::PermissionsExt;
+        let _ = std::fs::set_permissions(tmp.path(), std::fs::Permissions::from_mode(0o755));
+    }
     let symargs = make_symargs(tmp.path());
-    let mut st = State { tool, tmp, symargs, cache: HashMap::new(), inputs: HashMap::new(), n: 0 };
+    let port = 0;
+    let mut st = State { tool, tmp, symargs, port, cache: HashMap::new(), inputs: HashMap::new(), n: 0 };
     for_each_case(|line| run(&mut st, line));
 }
